@@ -19,10 +19,10 @@ var Properties = map[string]PropertyDef{
 	}},
 	"C08": {Cases: C08Cases, Config: func(tier string) Config {
 		c := Config{
-			Functions: []string{"maurer09.Protocol.ComputeProverCommitment/ComputeProverResponse/Verify/RunSimulator/Extract/ValidateStatement", "dlog/schnorr.NewProtocol", "okamoto.NewProtocol", "batch_schnorr.Protocol.*", "sigand.Compose + Protocol.*", "sigor.Compose + Protocol.*", "compiler.Compile", "fiatshamir.Protocol.NewProver/NewVerifier", "fiatshamir Prover.Prove / Verifier.Verify", "zkmodule.Prove/Verify", "algebrautils.ScalarMul (double-and-add on symbolic bases)"},
-			Bounds:    map[string]any{"witnesses, prover nonces, tampering offsets": "symbolic", "challenges": "5 concrete 16-byte challenges (0, 1, 2^128-1, high-bit, random)", "extractor": "arbitrary statement, commitment and responses; 10 (quick) / 20 (thorough) ordered challenge pairs", "compositions": "batch k=1..3 (5), AND k=1..3, OR n=2,3 with every witness position"},
+			Functions: []string{"maurer09.Protocol.ComputeProverCommitment/ComputeProverResponse/Verify/RunSimulator/Extract/ValidateStatement", "dlog/schnorr.NewProtocol", "okamoto.NewProtocol", "batch_schnorr.Protocol.*", "sigand.Compose + Protocol.*", "sigor.Compose + Protocol.*", "compiler.Compile", "fiatshamir.Protocol.NewProver/NewVerifier", "fiatshamir Prover.Prove / Verifier.Verify", "zkmodule.Prove/Verify", "algebrautils.ScalarMul (double-and-add on symbolic bases)", "elcomop.NewProtocol/NewWitness/NewStatement (Maurer09 over G×F → G², homomorphism = the real indcpacom/elgamal commitment)", "elog.NewProtocol/NewWitness/NewStatement (sigand.CartesianComposeNamed of elcomop and Schnorr)", "indcpacom.NewCommitmentKey / CommitmentKey.CommitWithWitness over elgamal.PublicKey"},
+			Bounds:    map[string]any{"elgamal proofs": "elcomop and elog with the ElGamal secret, the committed element, y, λ, the second base h and all offsets symbolic: completeness on every path for the 5 challenges, simulator, every response component shifted by δ≠0 rejected, a witness whose plaintext or nonce is shifted by δ≠0 refused by ValidateStatement and its transcript rejected, elog.NewWitness refuses y' ≠ y, ValidateStatement refuses Y ≠ h^y, Fiat–Shamir context binding", "witnesses, prover nonces, tampering offsets": "symbolic", "challenges": "5 concrete 16-byte challenges (0, 1, 2^128-1, high-bit, random)", "extractor": "arbitrary statement, commitment and responses; 10 (quick) / 20 (thorough) ordered challenge pairs", "compositions": "batch k=1..3 (5), AND k=1..3, OR n=2,3 with every witness position"},
 			Assumes:   []string{"Fiat–Shamir challenges are real transcript outputs over interned handles (random-oracle idealisation): context-binding clauses are class B", "fresh random draws non-zero"},
-			Outside:   []string{"every Paillier-/ring-based proof (paillier/*, prm, cggmp21/*): big-integer arithmetic", "ElGamal-based proofs (not yet harnessed)", "Fischlin and randomised Fischlin compilers, interactive zk compiler", "byte-level malleability of encoded proofs beyond truncation/extension (C12)"},
+			Outside:   []string{"every Paillier-/ring-based proof (paillier/*, prm, cggmp21/*): big-integer arithmetic", "Fischlin and randomised Fischlin compilers, interactive zk compiler", "byte-level malleability of encoded proofs beyond truncation/extension (C12)"},
 		}
 		return c
 	}},
